@@ -1,5 +1,6 @@
-(* Transport encodings used only by generated case files: hex strings and packed Uint63 lists. *)
-From Coq Require Import List NArith ZArith String Ascii Uint63 Bool.
+(* Bytes as lists of N (< 256) and the hex/ASCII string transports used by case files.
+   The packed Uint63 transport lives in Base/Pack63.v so that theorem files never depend on primitive integers. *)
+From Coq Require Import List NArith ZArith String Ascii Bool.
 Import ListNotations.
 Open Scope N_scope.
 Open Scope bool_scope.
@@ -19,14 +20,6 @@ Fixpoint bytes_of_hex (s : string) : bytes :=
   | _ => []
   end.
 Definition hx := bytes_of_hex.
-
-(* 7 bytes per primitive integer, little endian inside the integer *)
-Fixpoint unpack7 (k : nat) (z : N) : bytes :=
-  match k with O => [] | S k' => (z mod 256) :: unpack7 k' (z / 256) end.
-
-Definition unpack63 (len : N) (is : list int) : bytes :=
-  firstn (N.to_nat len) (flat_map (fun i => unpack7 7 (Z.to_N (Uint63.to_Z i))) is).
-Notation B := unpack63.
 
 (* text as bytes: ASCII strings for readability in case files *)
 Fixpoint bytes_of_string (s : string) : bytes :=
